@@ -62,6 +62,8 @@ def run(repo, rep, tier):
         fill = repo.own_method(c, "fill")
         npf = repo.own_method(c, "_numpy")
         for cfg in all_configs(repo, c.name, tier):
+            if cfg.knobs.get("unordered"):
+                continue       # the Stack clause of the property is stated for increasing thresholds
             for label, q in cfg.regions:
                 # ---------------- scalar path
                 try:
